@@ -199,7 +199,7 @@ func main() {
 	rnd := lib.Rand("c13")
 	nProgs, per, runs := 2, 40, 8
 	if lib.Thorough() {
-		nProgs, per, runs = 10, 60, 24
+		nProgs, per, runs = 8, 50, 16
 	}
 	if explore {
 		nProgs, per, runs = 8, 70, 8
